@@ -1533,7 +1533,7 @@ class PackBasedObjectStore(PackCapableObjectStore, PackedObjectContainer):
             try:
                 for o in p.iterobjects_subset(todo, allow_missing=True):
                     yield o
-                    todo.remove(o.id)
+                    todo.remove(ObjectID(o.get_id(self.object_format)))
             except PackFileDisappeared as exc:
                 self._evict_pack(exc.obj)
         # Maybe something else has added a pack with the object
@@ -1542,13 +1542,13 @@ class PackBasedObjectStore(PackCapableObjectStore, PackedObjectContainer):
             try:
                 for o in p.iterobjects_subset(todo, allow_missing=True):
                     yield o
-                    todo.remove(o.id)
+                    todo.remove(ObjectID(o.get_id(self.object_format)))
             except PackFileDisappeared as exc:
                 self._evict_pack(exc.obj)
         for alternate in self.alternates:
             for o in alternate.iterobjects_subset(todo, allow_missing=True):
                 yield o
-                todo.remove(o.id)
+                todo.remove(ObjectID(o.get_id(self.object_format)))
         for oid in todo:
             loose_obj: ShaFile | None = self._get_loose_object(oid)
             if loose_obj is not None:
